@@ -68,7 +68,7 @@ Proof. exact replaced_only_if_ca_says_gone. Qed.
 Print Assumptions C20_replaced_only_if_ca_says_gone.
 
 (** Clause 4 at full strength (the account reported missing IS the stored one) for one issuance
-    at a time; this is the statement the defect fixed by 1117f7d violated. *)
+    at a time; this is the statement the defect fixed by 78ef728 violated. *)
 Theorem C20_replaced_only_if_ca_says_gone_sequential : forall s l s1 c a,
   seq_reachable s -> seq_ok s l -> step s l = Some s1 ->
   slots s c = Slot (Some a) (Some a) -> slots s1 c <> slots s c ->
